@@ -317,7 +317,22 @@ where
                             }
                         }
                     }
-                    _ => {}
+                    BoolSym::And | BoolSym::Or => {
+                        // Both operands must themselves be solvable expressions, otherwise the
+                        // solver has nothing to evaluate (e.g. `A and 1`, `B and not(A)`)
+                        if !left.is_solvable() {
+                            return Err(crate::error::parse_led_preceding(format!(
+                                "encountered - '{:?}'",
+                                t
+                            )));
+                        }
+                        if !right.is_solvable() {
+                            return Err(crate::error::parse_led_following(format!(
+                                "encountered - '{:?}'",
+                                t
+                            )));
+                        }
+                    }
                 }
                 Ok(Expression::BooleanExpression(
                     Box::new(left),
